@@ -639,6 +639,7 @@ def to_load(t):
 # ----------------------------------------------------------------------------- proving
 RESULTS = []
 PURIFIED = [0]
+CVC5 = [0]
 def discharge(title, obligations, extra_goals, assumptions=()):
     """obligations: list of (name, pc, goal) collected during execution; extra_goals: (name, pc, goal)"""
     ok = True; n = 0; t0 = time.time(); failed = []
@@ -647,13 +648,31 @@ def discharge(title, obligations, extra_goals, assumptions=()):
         s = z3.Solver(); s.set("timeout", 3000)
         s.add(*assumptions); s.add(*pc); s.add(z3.Not(goal)); r = s.check(); n += 1
         if r == z3.unknown:
+            # escalation: cvc5 on the SMT-LIB export of the same query
+            import subprocess, tempfile, os as _os
+            with tempfile.NamedTemporaryFile("w", suffix=".smt2", delete=False) as f:
+                f.write("(set-logic ALL)\n" + s.to_smt2()); fn = f.name
+            try:
+                out = subprocess.run(["cvc5", "--tlimit=30000", fn], capture_output=True, text=True, timeout=45).stdout.strip()
+            except Exception: out = ""
+            _os.unlink(fn)
+            if out.startswith("unsat"): r = z3.unsat; CVC5[0] += 1
+        if r == z3.unknown:
+            # escalation step 1b: keep the query small -- drop hypothesis groups the goal does not mention (sound: fewer hypotheses)
+            gtxt = str(goal)
+            groups = [g for g in ("TAG_phase1", "G_fh", "G_idx") if g not in gtxt]
+            for drop in ([groups] if len(groups) > 1 else []) + [[g] for g in groups]:
+                keep = [c for c in pc if not any(g in str(c) for g in drop)]
+                s1b = z3.Solver(); s1b.set("timeout", int(__import__("os").environ.get("MID_MS", "8000"))); s1b.add(*assumptions); s1b.add(*keep); s1b.add(z3.Not(goal))
+                if s1b.check() == z3.unsat: r = z3.unsat; break
+        if r == z3.unknown:
             # escalation step 2: purify (array reads / UF applications -> fresh constants); unsat of the abstraction is sound
-            s2 = z3.Solver(); s2.set("timeout", 20000); s2.add(*purify(list(assumptions) + list(pc) + [z3.Not(goal)]))
+            s2 = z3.Solver(); s2.set("timeout", int(__import__("os").environ.get("LONG_MS", "20000"))); s2.add(*purify(list(assumptions) + list(pc) + [z3.Not(goal)]))
             if s2.check() == z3.unsat: r = z3.unsat; PURIFIED[0] += 1
         if r != z3.unsat:
             ok = False; failed.append((name, str(r), s.model() if r == z3.sat else None))
     RESULTS.append((title, n, len(failed), round(time.time() - t0, 2)))
-    print(f"[{'OK ' if ok else 'RED'}] {title}: {n} obligations, {len(failed)} not discharged, {time.time()-t0:.2f}s")
+    print(f"[{'OK ' if ok else 'RED'}] {title}: {n} obligations, {len(failed)} not discharged, {time.time()-t0:.2f}s  (by cvc5 after z3 unknown: {CVC5[0]}, after purification: {PURIFIED[0]})")
     for name, r, m in failed[:4]:
         print("      -", name, r, (str(m)[:300].replace("\n", " ") if m is not None else ""))
     return ok, failed
